@@ -8,6 +8,7 @@ pub mod c10;
 pub mod c11;
 pub mod c12;
 pub mod c13;
+pub mod c15;
 
 use crate::engine::Ctx;
 
@@ -31,6 +32,7 @@ pub fn dispatch(ctx: &Ctx, replay: Option<&str>) -> i32 {
         "C11" => p!(c11),
         "C12" => p!(c12),
         "C13" => p!(c13),
+        "C15" => p!(c15),
         other => {
             eprintln!("MACHINERY: unknown property {}", other);
             2
